@@ -183,7 +183,7 @@ class Execution:
         self.idents = {}
         self.running = None
         self.done_evt = threading.Event()
-        self.status = "ok"  # ok | deadlock | livelock | diverged | timeout
+        self.status = "ok"  # ok | deadlock | livelock | diverged | alt-gone | timeout
         self.detail = None
         self.aborting = False
         self.preemptions = 0
@@ -199,6 +199,13 @@ class Execution:
         if i < len(self.prefix):
             c = self.prefix[i]
             if c >= n:
+                if i == len(self.prefix) - 1:
+                    # the prefix up to here replayed exactly; only the NEW alternative at its last position is not
+                    # there (the other thread turned out to have finished already: it had no library line left, and
+                    # whether its end is registered before or after this point is a harness-level race).  Nothing is
+                    # lost - that thread has no operation left to interleave - so the branch is skipped and counted.
+                    self._abort("alt-gone", "alternative %d of %d at point %d is gone" % (c, n, i))
+                    raise Abort()
                 self._abort("diverged", "replay divergence at point %d: choice %d of %d enabled" % (i, c, n))
                 raise Abort()
         else:
